@@ -586,6 +586,13 @@ fn run_session(s: &Session, facts: &[String], do_reprint: bool, err_hist: &mut B
             stopped = true;
             break;
         }
+        // a command the encoder itself declares unsupported puts the session outside the property's
+        // fragment ("for every program the encoder declares supported"): stop here, no verdict
+        if obs[0].ok && (1..3).any(|mi| !obs[mi].ok && !obs[mi].panicked && obs[mi].err.contains("not supported by the current proof term encoding")) {
+            *err_hist.entry("declared-unsupported-by-encoder".into()).or_insert(0) += 1;
+            stopped = true;
+            break;
+        }
         for mi in 1..3 {
             let (a, b) = (&obs[0], &obs[mi]);
             if a.panicked != b.panicked || a.ok != b.ok {
